@@ -168,21 +168,45 @@ func checkC20(c *Ctx) {
 	if f := P.Func("config", "MatchHostPattern"); f == nil {
 		c.Undecided("C20.R3", "config.MatchHostPattern", "function not found")
 	} else {
-		okv := false
-		for _, cs := range callSitesIn(f, false, globID) {
-			a := cs.Common().Args
-			if len(a) >= 2 && paramIndex(f, a[0]) == 0 && paramIndex(f, a[1]) == 1 {
-				if call, ok := cs.(*ssa.Call); ok {
-					// result returned unchanged
-					for _, b := range f.Blocks {
-						if r, ok := b.Instrs[len(b.Instrs)-1].(*ssa.Return); ok && len(r.Results) == 1 && r.Results[0] == ssa.Value(call) {
-							okv = true
-						}
+		// every return hands back the result of glob.Glob(pattern, input), unchanged
+		okv := true
+		nRet := 0
+		isGlobCall := func(v ssa.Value) bool {
+			call, ok := v.(*ssa.Call)
+			if !ok || calleeID(call) != globID {
+				return false
+			}
+			a := call.Call.Args
+			return len(a) >= 2 && paramIndex(f, a[0]) == 0 && paramIndex(f, a[1]) == 1
+		}
+		var fromGlob func(v ssa.Value, depth int) bool
+		fromGlob = func(v ssa.Value, depth int) bool {
+			if isGlobCall(v) {
+				return true
+			}
+			if phi, ok := v.(*ssa.Phi); ok && depth < 4 {
+				for _, e := range phi.Edges {
+					if !fromGlob(e, depth+1) {
+						return false
 					}
+				}
+				return len(phi.Edges) > 0
+			}
+			if src := loadSource(v); src != nil && src != v && depth < 4 {
+				return fromGlob(src, depth+1)
+			}
+			return false
+		}
+		for _, b := range f.Blocks {
+			if r, ok := b.Instrs[len(b.Instrs)-1].(*ssa.Return); ok {
+				nRet++
+				if len(r.Results) != 1 || !fromGlob(r.Results[0], 0) {
+					okv = false
 				}
 			}
 		}
-		c.Check(okv, "C20.R3", FuncName(f)+"#delegates", P.Pos(f.Pos()), "returns glob.Glob(pattern, input)", "MatchHostPattern does not return glob.Glob(pattern, input) with the arguments in that order")
+		okv = okv && nRet > 0
+		c.Check(okv, "C20.R3", FuncName(f)+"#delegates", P.Pos(f.Pos()), "every return is glob.Glob(pattern, input)", "MatchHostPattern answers on some path without the result of glob.Glob(pattern, input) (arguments in that order): on that path host blocks are not selected by glob matching")
 	}
 	if f := P.Func("hopserver", "VirtualHosts.Match"); f == nil {
 		c.Undecided("C20.R3", "hopserver.VirtualHosts.Match", "function not found")
